@@ -2,6 +2,8 @@
 
 from __future__ import annotations
 
+import random
+
 from .. import gen, probe, smallworld, spec
 from ..probe import violation
 from .common import call, growth_sweep, use_as_input_of_derivations
@@ -73,7 +75,42 @@ def small_world_relations(c, recs, d, q):
             violation(["C03"], "bijection-on-prefix-free", "compress-of-expand-differs-from-standardize_curie", uri=q, curie=curie, back=back, standardize_curie=sc, **w)
 
 
+def registry_like_case(ctx, g, rng):
+    """A map shaped like the OBO PURL namespace: one catch-all record and dozens or hundreds of records whose URI prefixes
+    extend it.  Strings under the catch-all that sort after, before and between all of them, and strings of the nested
+    records, through the round-trip relations (seed C03-W: a sorted list of URI prefixes searched backwards through a
+    window of 64 entries - the catch-all is further away than that)."""
+    api, S = ctx.api, probe.S
+    d = rng.choice([":", ":", "/"])
+    n = rng.choice([40, 63, 64, 65, 70, 130, 260])
+    base = rng.choice(["http://purl.obolibrary.org/obo/", "https://w3id.org/x/", "urn:"])
+    names = []
+    while len(names) < n:
+        nm = "".join(rng.choice("ABCDEFGHIKLMNOPRSTUVWXYZ") for _ in range(rng.randint(2, 5)))
+        if nm not in names and nm != "OBO":
+            names.append(nm)
+    recs = [spec.Rec("OBO", base, ("obo",), (), None)]
+    for i, nm in enumerate(names):
+        usyn = (base + nm.lower() + "#",) if i % 4 == 0 else ()
+        recs.append(spec.Rec(nm, base + nm + "_", (nm.lower(),) if i % 3 == 0 else (), usyn, None))
+    with probe.monitor_mode():  # (the build is not the subject; its hooks cost O(n) per registration)
+        c, how = gen._build(api, recs, d, rng, rng.choice(["ctor", "incremental", "mixed"]))
+    S.counters[f"wl:registry-like:n{n}:{how}"] += 1
+    tails = ["ZZZ_0000001", "zfa#part_of", "ro.owl", "AAA_1", "~x", "0", "", "_", "zzzz", rng.choice(names) + "-1", rng.choice(names)[:-1] + "_1", rng.choice(names).lower() + "_7"]
+    for t in tails:
+        small_world_relations(c, recs, d, "OBO" + d + t)
+        small_world_relations(c, recs, d, "obo" + d + t)
+        small_world_relations(c, recs, d, base + t)
+    for nm in rng.sample(names, k=12):
+        small_world_relations(c, recs, d, nm + d + "0000001")
+        small_world_relations(c, recs, d, base + nm + "_0000001")
+        small_world_relations(c, recs, d, base + nm.lower() + "#x")
+    probe.note_key(f"registry-like:n{n}", True)
+
+
 def run_case(ctx, g, rng):
+    if g % 61 == 60:
+        registry_like_case(ctx, g, random.Random(f"registry-like/{g}/{rng.random()}"))
     d_ = rng.choice([":", ":", "/"])
     growth_sweep(ctx, rng, d_, g, relate=lambda c_, q: small_world_relations(c_, spec.snapshot(c_), d_, q))
     if smallworld.active(ctx, g):
